@@ -17,7 +17,9 @@ change, and a source change cannot be hidden by run-time mutation):
     equal membership;
   * every payload class statement with `MESSAGE_TYPE = MessageType.X` / `MESSAGE_VERSION = <int>` in its body must
     equal the run-time class attributes, and vice versa.
-Any difference is a TranslateError (exit 2, message on stdout).
+A construct the reader does not understand is a TranslateError (exit 2, message on stdout).  A difference between the
+source view and the run-time view is recorded in the table under `source_vs_runtime` (the table carries the run-time
+values, which are what the package does); the check reports every such entry.
 """
 import ast
 import glob
@@ -30,6 +32,8 @@ sys.path.insert(0, os.path.dirname(os.path.abspath(__file__)))
 from c03_common import TranslateError, code, lean_nat, lean_int, lean_ident, write_if_changed, sha256_files  # noqa: E402
 
 PKG = 'fusion_engine_client.messages'
+# source-vs-run-time differences found by the cross-check (reported, the run-time value is what the table carries)
+PROBLEMS = []
 
 
 def source_paths(repo):
@@ -207,7 +211,7 @@ def runtime_tables(repo, paths):
                 raise TranslateError(nm, 'element %r is not a MessageType' % (x,))
         for m in MT.__members__.values():
             if bool(fn(m)) != (m in s):
-                raise TranslateError(nm, '%s(%s) differs from membership in %s' % (fn.__name__, m.name, nm))
+                PROBLEMS.append(str(TranslateError(nm, '%s(%s) differs from membership in %s' % (fn.__name__, m.name, nm))))
         cls_sets[nm] = sorted((x.name, int(x)) for x in s)
     payload = []
     for c in all_subclasses(defs.MessagePayload):
@@ -241,7 +245,7 @@ def extract(repo):
             seen.add(key)
             if sorted(a_enums[key]) != sorted(e['members']):
                 diff = sorted(set(a_enums[key]) ^ set(e['members']))
-                raise TranslateError(e['qualname'], 'run-time members differ from the class body in the source: %s' % diff[:6])
+                PROBLEMS.append(str(TranslateError(e['qualname'], 'run-time members differ from the class body in the source: %s' % diff[:6])))
             kind = 'declared'
         else:
             if key not in a_derived:
@@ -250,20 +254,20 @@ def extract(repo):
         out_enums.append({'name': e['name'], 'module': e['module'], 'kind': kind, 'members': [list(m) for m in e['members']]})
     for key in a_enums:
         if key not in seen:
-            raise TranslateError('%s.%s' % key, '`class X(IntEnum)` statement without a run-time class')
+            PROBLEMS.append(str(TranslateError('%s.%s' % key, '`class X(IntEnum)` statement without a run-time class')))
     names = [e['name'] for e in out_enums if e['kind'] == 'declared']
     if len(set(names)) != len(names):
         raise TranslateError(PKG, 'two source-declared IntEnum classes share a name: %s' % sorted(n for n in names if names.count(n) > 1))
 
     # --- classification sets ---
     if mutations:
-        raise TranslateError(PKG, 'classification sets are modified after their definition: %s' % mutations[:3])
+        PROBLEMS.append(str(TranslateError(PKG, 'classification sets are modified after their definition: %s' % mutations[:3])))
     for nm in ('COMMAND_MESSAGES', 'RESPONSE_MESSAGES'):
         if len(a_sets.get(nm, [])) != 1:
-            raise TranslateError(nm, 'assigned %d times in the source' % len(a_sets.get(nm, [])))
-        if sorted(a_sets[nm][0]) != sorted(n for n, _ in r_sets[nm]) or len(set(a_sets[nm][0])) != len(a_sets[nm][0]):
-            raise TranslateError(nm, 'run-time set differs from the set display in the source: %s'
-                                 % sorted(set(a_sets[nm][0]) ^ set(n for n, _ in r_sets[nm])))
+            PROBLEMS.append(str(TranslateError(nm, 'assigned %d times in the source' % len(a_sets.get(nm, [])))))
+        elif sorted(a_sets[nm][0]) != sorted(n for n, _ in r_sets[nm]) or len(set(a_sets[nm][0])) != len(a_sets[nm][0]):
+            PROBLEMS.append(str(TranslateError(nm, 'run-time set differs from the set display in the source: %s'
+                                 % sorted(set(a_sets[nm][0]) ^ set(n for n, _ in r_sets[nm])))))
 
     # --- payload classes ---
     out_payload = []
@@ -274,12 +278,12 @@ def extract(repo):
         if a is not None:
             seen.add(key)
         if c['own_type'] != bool(a and a['has_type']) or c['own_version'] != bool(a and a['has_version']):
-            raise TranslateError(c['qualname'], 'MESSAGE_TYPE / MESSAGE_VERSION attributes of the run-time class are not '
-                                 'the ones in its class body')
+            PROBLEMS.append(str(TranslateError(c['qualname'], 'MESSAGE_TYPE / MESSAGE_VERSION attributes of the run-time class are not '
+                                 'the ones in its class body')))
         if a and a['has_type'] and a['type'] != c['type_name']:
-            raise TranslateError(c['qualname'], 'run-time MESSAGE_TYPE %s differs from the source %s' % (c['type_name'], a['type']))
+            PROBLEMS.append(str(TranslateError(c['qualname'], 'run-time MESSAGE_TYPE %s differs from the source %s' % (c['type_name'], a['type']))))
         if a and a['has_version'] and a['version'] != c['version']:
-            raise TranslateError(c['qualname'], 'run-time MESSAGE_VERSION %s differs from the source %s' % (c['version'], a['version']))
+            PROBLEMS.append(str(TranslateError(c['qualname'], 'run-time MESSAGE_VERSION %s differs from the source %s' % (c['version'], a['version']))))
         if c['type'] is None:
             continue            # abstract helper without a message type
         if c['version'] is None:
@@ -289,7 +293,7 @@ def extract(repo):
     mp = PKG + '.defs', 'MessagePayload'
     for key in a_payload:
         if key not in seen and key != mp:
-            raise TranslateError('%s.%s' % key, 'class declaring MESSAGE_TYPE/MESSAGE_VERSION is not a MessagePayload subclass at run time')
+            PROBLEMS.append(str(TranslateError('%s.%s' % key, 'class declaring MESSAGE_TYPE/MESSAGE_VERSION is not a MessagePayload subclass at run time')))
     out_registry = []
     for t, tname, mod, qual, ver in registry:
         out_registry.append({'type': t, 'type_name': tname, 'name': qual.split('.')[-1], 'module': mod,
@@ -303,6 +307,7 @@ def extract(repo):
         'payload': sorted(out_payload, key=lambda c: (c['type'], c['module'], c['name'])),
         'registry': sorted(out_registry, key=lambda c: c['type']),
         'sources': sha256_files(paths),
+        'source_vs_runtime': list(PROBLEMS),
     }
     for e in table['enums']:
         code(e['name'])
